@@ -376,7 +376,7 @@ def generate(rng):
     for i in range(nw):
         cmds.append({"op": "walk_finish", "w": i, "qs": [list(gen_query(rng, pool)) for _ in range(rng.choice([1, 3, 5]))]})
     pinned = [int(rng.random() < 0.35) for _ in range(nw)]
-    return {"prop": ID, "cfg": {"prune": prune, "cache": cache, "walkers": walkers, "pinned": pinned}, "cmds": cmds}
+    return {"prop": ID, "cfg": {"prune": prune, "cache": cache, "walkers": walkers, "pinned": pinned, "store": rng.choice(["min", "min", "dict"])}, "cmds": cmds}
 
 
 def explore(rng, st):
